@@ -48,7 +48,48 @@ std::string show_msgs(const std::vector<ref::Msg> &v) {
 	return s;
 }
 
+// Fixed scenario of the known finding "shutdown commands deferred behind unanswered requests" (KNOWN_FINDINGS.txt). It
+// does not depend on the generator, so that the replay file known/C16-shutdown-deferred.case (data = "KNOWN1") keeps its
+// meaning when the generated domain changes.
+void known_shutdown_deferred(const ref::Bytes &sched, Ctx &ctx) {
+	Normal n;
+	n.s.world(sched);
+	cfg::Board b;
+	b.id = "kb1";
+	b.uid = {0x10, 0x00, 0x0D, 0x01, 0x02, 0x03, 0x04};
+	cfg::Train t;
+	t.id = "kt1"; t.addrh = 0; t.addrl = 3; t.steps = 126;
+	n.c.boards.push_back(b);
+	n.c.trains.push_back(t);
+	n.present = {true};
+	n.bus.attach(n.s);
+	ref::Bytes none;
+	DP zero(none);
+	n.bus.build_tree(zero, n.c, n.present, 0);
+	ctx.desc << "C16 fixed scenario: one track output kb1, one train kt1; the interface stops answering, 3 speed commands and 6 "
+	            "unique-id requests to kb1 stay unanswered, then bidib_stop\n";
+	if (n.start(0) != 0) ctx.fail("START: fixed configuration rejected");
+	n.s.settle();
+	n.bus.silent = true;
+	for (int i = 0; i < 3; i++) bidib_set_train_speed("kt1", 10 + i, "kb1");
+	t_bidib_node_address a = n.addr_of("kb1");
+	for (int i = 0; i < 6; i++) bidib_send_sys_get_unique_id(a, 0);
+	bidib_flush();
+	n.s.settle();
+	size_t mark = n.s.down.size();
+	n.s.stop();
+	std::string err;
+	int soft = 0, off = 0;
+	for (auto &m : n.s.msgs_since(mark, &err)) {
+		if (m.type == M::CS_SET_STATE && m.data == ref::Bytes{2}) soft++;
+		if (m.type == M::CS_SET_STATE && m.data == ref::Bytes{0}) off++;
+	}
+	if (soft != 1 || off != 1)
+		ctx.fail("SHUTDOWN-DEFERRED: track output kb1 received " + std::to_string(soft) + " soft-stop and " + std::to_string(off) + " track-off commands during bidib_stop (expected exactly 1 each)");
+}
+
 void prop(DP &dp, const ref::Bytes &sched, Ctx &ctx) {
+	if (dp.n >= 6 && !memcmp(dp.p, "KNOWN1", 6)) { known_shutdown_deferred(sched, ctx); return; }
 	Normal n;
 	NormalOpts o;
 	o.gen.need_track_output = dp.chance(220);
